@@ -22,6 +22,7 @@ EXPLANATION = (
     "probed; (5) domain-option hashing agreement: rule side fast_hash(domain) sorted before use, request "
     "side fast_hash of the source host and each dot-suffix, looked up with binary search."
     ' Later additions: every regex builder of compile_regex is configured like its siblings ($match-case); no list is probed for a request with an unsupported scheme (also generichide and removeparam); `$domain=` entries are hashed lower-cased; the scheme arms of parse (`|https://` ...) are entered only when the remaining pattern is exactly the scheme; the option / domain loops visit every entry.'
+    " Round 6: every way on to the next option in parse_filter_options passes `result.push` (an option the parser does not record rejects the line); non-ASCII `$domain=` entries are hashed in punycode like the request's source hostname."
 )
 NOT_DECIDED = ("The implicit-type mask arithmetic of NetworkFilter::parse on concrete option sets (value level); "
                "pattern matching (C02).")
@@ -62,12 +63,38 @@ NETWORK_TYPES = ["FROM_FONT", "FROM_IMAGE", "FROM_MEDIA", "FROM_OBJECT", "FROM_O
 M = "filters::network::NetworkFilterMask::"
 
 
+def rule_every_option_recorded(run, F, cfg):
+    """parse_filter_options: an iteration of the loop over the comma-separated options goes on to the next option
+    only after pushing the option it parsed; anything it does not understand rejects the line (return Err)."""
+    from analysis.guards import unrecorded_iterations
+    f = F.fn("filters::abstract_network::parse_filter_options")
+    run.touched(f)
+
+    def records(b, t):
+        return strip_generics(t["callee"]) == "std::vec::Vec::push" and f.vexpr_operand(t["args"][0]).endswith("$result")
+    p1 = re.escape(f.local_name(1))
+    r = unrecorded_iterations(f, r"^<std::str::Split<.*> as std::iter::Iterator>::next$", records,
+                              expr_rx=r"::next\(core::str::split\(" + p1 + r", ','\)\)$")
+    if r is None:
+        run.ob("C03.9.every-entry", "every-option-recorded-or-rejected", False,
+               "the loop over raw_options.split(',') was not found", status="UNDISCHARGED", site=f.loc(0), config=cfg)
+        return
+    n, bad = r
+    run.ob("C03.9.every-entry", "every-option-recorded-or-rejected", n >= 1 and not bad,
+           f"each of the {n} ways of going on to the next option in parse_filter_options passes `result.push(<option>)`: "
+           f"no option text is skipped silently (a line with an option the parser does not record is rejected); "
+           f"skipping continue/fall-through edges at: {bad}", site=bad[0] if bad else f.loc(0), config=cfg,
+           detail="a skipped option turns lines that used to be rejected (`||x^$script,`, `||x^$`) into live rules and "
+                  "drops a restriction the author wrote")
+
+
 def check(run):
     for cfg in run.cfgs("A", "B"):
         F = run.facts(cfg)
         from analysis.guards import rule_visits_all as _rva
         run.guard("C03.9.every-entry", cfg, lambda: _rva(run, "C03.9.every-entry", F, cfg, ['filters::abstract_network::parse_filter_options', 'filters::network::NetworkFilter::parse'],
                   'Every option of a rule and every entry of its domain= list restricts (or widens) where the rule applies: an entry that is not reached is an option that is not enforced', minimum=3))
+        run.guard("C03.9.every-entry", cfg + "/recorded", lambda: rule_every_option_recorded(run, F, cfg))
         run.guard("C03.1.option-chain", cfg, lambda: rule_chain(run, F, cfg))
         run.guard("C03.2.bit-layout", cfg, lambda: rule_bits(run, F, cfg))
         run.guard("C03.3.check_options-table", cfg, lambda: rule_check_options(run, F, cfg))
@@ -866,9 +893,32 @@ def rule_payloads(run, F, cfg):
     run.ob("C03.1.option-chain", "string-payloads-verbatim:parse", norm == want,
            f"NetworkFilter::parse stores the option payloads themselves in tag / modifier_option ({norm})", site=c.loc(0), config=cfg)
     hashed = [re.sub(r"arg:\w+@", "arg:option@", c.expr_call(t)) for b, t in c.calls(r"^utils::fast_hash$")]
-    ok_h = len(hashed) == 1 and bool(re.match(
-        r"^utils::fast_hash\(std::str::to_ascii_lowercase\(<std::vec::IntoIter<T, A> as std::iter::Iterator>::next\((arg:option@Domain\.0|…var:iter|…_\d+)\)@Some\.0\.1\)\)$", hashed[0]))
+    ENTRY = r"<std::vec::IntoIter<T, A> as std::iter::Iterator>::next\((arg:option@Domain\.0|…var:iter|…_\d+)\)@Some\.0\.1"
+    ok_h = False
+    forms = []
+    if len(hashed) == 1:
+        m = re.match(r"^utils::fast_hash\((.*)\)$", hashed[0])
+        arg = m.group(1) if m else ""
+        alts = [a.strip() for a in arg[2:-1].split(" | ")] if arg.startswith("φ{") else [arg]
+        for a in alts:
+            if re.match(r"^std::str::to_ascii_lowercase\(" + ENTRY + r"\)$", a):
+                forms.append("ascii-lowercase")
+            elif re.match(r"^std::result::Result::unwrap_or_else\(idna::domain_to_ascii\(" + ENTRY + r"\), closure\[[^\]]+\]\(" + ENTRY + r"\)\)$", a):
+                fb = re.search(r"closure\[([^\]]+)\]", a).group(1)
+                fbv = F.fns[fb].expr_local(0) if fb in F.fns else ""
+                forms.append("idna" if re.match(r"^std::str::to_(ascii_)?lowercase\(up:\w+\)$", fbv) else f"idna-with-fallback:{fbv[:40]}")
+            elif re.match(r"^idna::domain_to_ascii\(" + ENTRY + r"\)", a):
+                forms.append("idna")
+            else:
+                forms.append("other:" + a[:60])
+        # the ASCII shortcut is taken only for ASCII entries
+        from analysis.guards import conditional_defs as _cdd
+        guarded = True
+        if "ascii-lowercase" in forms and "idna" in forms:
+            asc = [(b, t) for b, t in c.calls(r"^std::str::to_ascii_lowercase$") if re.search(ENTRY, re.sub(r"arg:\w+@", "arg:option@", c.expr_operand(t["args"][0])))]
+            guarded = bool(asc) and all(has_cond(dominating_conditions(c, b), r"^core::str::is_ascii\(", 1) for b, t in asc)
+        ok_h = sorted(set(forms)) in (["ascii-lowercase", "idna"], ["idna"]) and guarded
     run.ob("C03.1.option-chain", "domain-entries-hashed-verbatim", ok_h,
-           "each `$domain=` entry is hashed as written apart from ASCII lower-casing (the request side hashes the labels of the "
-           f"initiator's hostname, which is lower-case; host names are case-insensitive): {hashed}",
-           site=c.loc(0), config=cfg)
+           "each `$domain=` entry is hashed in the spelling the request side uses for the initiator's hostname -- lower-case, "
+           "and punycode (idna::domain_to_ascii) when it is not ASCII -- and is otherwise taken as written: "
+           f"forms {forms}, {hashed}", site=c.loc(0), config=cfg)
